@@ -1,0 +1,34 @@
+//go:build verif
+
+package database
+
+import "github.com/safing/portbase/database/storage"
+
+// Verification accessors for property C14 (build tag "verif" only).
+
+// VerifController returns the controller of the named database (starting it if necessary).
+func VerifController(name string) (*Controller, error) { return getController(name) }
+
+// VerifStorage returns the storage behind the controller of the named database.
+func VerifStorage(name string) (storage.Interface, error) {
+	c, err := getController(name)
+	if err != nil {
+		return nil, err
+	}
+	return c.storage, nil
+}
+
+// VerifListSizes returns the number of entries in the subscription and hook lists of a database.
+func VerifListSizes(name string) (subs, hooks int, err error) {
+	c, err := getController(name)
+	if err != nil {
+		return 0, 0, err
+	}
+	c.subscriptionLock.RLock()
+	subs = len(c.subscriptions)
+	c.subscriptionLock.RUnlock()
+	c.hooksLock.RLock()
+	hooks = len(c.hooks)
+	c.hooksLock.RUnlock()
+	return subs, hooks, nil
+}
